@@ -147,6 +147,7 @@ falls back to the cache file; look-ups and clean-ups do not matter. -/
 def specStep (S : Spec) : Op → Spec
   | .sync full t ps ds =>
     { cur := S.cur.apply full ps ds, disk := if full then some ⟨t, ps, ds⟩ else S.disk }
+  | .syncNS _ ps ds => { cur := S.cur.apply true ps ds, disk := S.disk }
   | .restart v => { cur := restartLatest v S.disk, disk := S.disk }
   | _ => S
 
@@ -182,6 +183,7 @@ structure RespWF (ps : List Profile) (ds : List Device) : Prop where
 after every prefix. -/
 structure HistWF (ops : List Op) : Prop where
   resp : ∀ full t ps ds, Op.sync full t ps ds ∈ ops → RespWF ps ds
+  respNS : ∀ t ps ds, Op.syncNS t ps ds ∈ ops → RespWF ps ds
   uniq : ∀ pre, pre <+: ops → Uniq (latest pre)
 
 /-! ### Invariant -/
@@ -589,6 +591,7 @@ theorem step_cache_other (s : St) (op : Op) (h1 : ∀ full t ps ds, op ≠ .sync
     (step s op).cache = s.cache := by
   cases op with
   | sync full t ps ds => exact absurd rfl (h1 full t ps ds)
+  | syncNS t ps ds => rfl
   | byDev id => rfl
   | byKey k => rfl
   | byHuman pid h => rfl
@@ -600,7 +603,8 @@ theorem step_cache_other (s : St) (op : Op) (h1 : ∀ full t ps ds, op ≠ .sync
   | restart v => exact loadCache_cache v s.cache
 
 theorem inv_step {s : St} {S : Spec} (hI : InvS s S) (op : Op)
-    (hW : ∀ full t ps ds, op = .sync full t ps ds → RespWF ps ds) (hU : Uniq (specStep S op).cur) :
+    (hW : ∀ full t ps ds, op = .sync full t ps ds → RespWF ps ds)
+    (hW2 : ∀ t ps ds, op = .syncNS t ps ds → RespWF ps ds) (hU : Uniq (specStep S op).cur) :
     InvS (step s op) (specStep S op) := by
   cases op with
   | sync full t ps ds =>
@@ -618,6 +622,9 @@ theorem inv_step {s : St} {S : Spec} (hI : InvS s S) (op : Op)
         subst this
         exact hW true t ps ds rfl
       | false => exact hI.diskWF f (by simpa [specStep] using hf)
+  | syncNS t ps ds =>
+    refine ⟨?_, hI.cache, hI.diskWF⟩
+    exact inv_congr (inv_sync hI.inv true t ps ds (hW2 t ps ds rfl) hU) rfl rfl rfl rfl
   | byDev id => exact ⟨inv_pending hI.inv _, hI.cache, hI.diskWF⟩
   | byKey k => exact ⟨inv_pending hI.inv _, hI.cache, hI.diskWF⟩
   | byHuman pid h => exact ⟨inv_pending hI.inv _, hI.cache, hI.diskWF⟩
@@ -639,19 +646,22 @@ theorem inv_step {s : St} {S : Spec} (hI : InvS s S) (op : Op)
 
 theorem inv_foldl (ops : List Op) : ∀ (s : St) (S : Spec), InvS s S →
     (∀ full t ps ds, Op.sync full t ps ds ∈ ops → RespWF ps ds) →
+    (∀ t ps ds, Op.syncNS t ps ds ∈ ops → RespWF ps ds) →
     (∀ pre, pre <+: ops → Uniq (pre.foldl specStep S).cur) →
     InvS (ops.foldl step s) (ops.foldl specStep S) := by
   induction ops with
-  | nil => intro s S h _ _; exact h
+  | nil => intro s S h _ _ _; exact h
   | cons o r ih =>
-    intro s S h hW hU
+    intro s S h hW hW2 hU
     simp only [List.foldl]
     apply ih
     · apply inv_step h o
       · intro full t ps ds he; exact hW full t ps ds (by simp [he])
+      · intro t ps ds he; exact hW2 t ps ds (by simp [he])
       · have := hU [o] (by simp)
         simpa using this
     · intro full t ps ds hm; exact hW full t ps ds (List.mem_cons_of_mem _ hm)
+    · intro t ps ds hm; exact hW2 t ps ds (List.mem_cons_of_mem _ hm)
     · intro pre hp
       have := hU (o :: pre) (by simpa using hp)
       simpa using this
@@ -660,7 +670,7 @@ theorem invS_init : InvS init Spec.empty :=
   ⟨inv_init, rfl, by intro f h; cases h⟩
 
 theorem invS_run (ops : List Op) (h : HistWF ops) : InvS (run ops) (spec ops) :=
-  inv_foldl ops init Spec.empty invS_init h.resp h.uniq
+  inv_foldl ops init Spec.empty invS_init h.resp h.respNS h.uniq
 
 theorem inv_run (ops : List Op) (h : HistWF ops) : Inv (run ops) (latest ops) :=
   (invS_run ops h).inv
@@ -679,6 +689,7 @@ cache).  Failed requests, look-ups and clean-ups do not move it. -/
 def lastApplied : List Ev → Nat
   | [] => 0
   | .op (.sync _ t _ _) :: _ => t
+  | .op (.syncNS t _ _) :: _ => t
   | .op (.restart v) :: older =>
     match diskOf older with
     | some f => if f.usable v then f.time else 0
@@ -727,6 +738,7 @@ theorem proto_inv (l : List Ev) :
         cases full with
         | true => exact ⟨rfl, rfl⟩
         | false => exact ⟨rfl, ih2⟩
+      | syncNS t ps ds => exact ⟨rfl, ih2⟩
       | byDev id => exact ⟨ih1, ih2⟩
       | byKey k => exact ⟨ih1, ih2⟩
       | byHuman pid h => exact ⟨ih1, ih2⟩
@@ -798,28 +810,36 @@ the request the database actually sends), a `Refresh` whose request fails, or an
 (look-up, clean-up execution, restart). -/
 inductive Act
   | sync (full : Bool) (n : Nat)
+  /-- a successful full request at backend time `n` whose cache store then failed -/
+  | syncNS (n : Nat)
   | fail (full : Bool)
   | op (o : Op)
 
 /-- `Act.op` is for everything but synchronisations. -/
 def Act.ok : Act → Prop
   | .op (.sync _ _ _ _) => False
+  | .op (.syncNS _ _ _) => False
   | _ => True
 
 /-- Backend times do not run backwards. -/
 def Mono : Nat → List Act → Prop
   | _, [] => True
   | now, .sync _ n :: r => now ≤ n ∧ Mono n r
+  | now, .syncNS n :: r => now ≤ n ∧ Mono n r
   | now, _ :: r => Mono now r
 
 /-- The model operation a successful `Refresh` amounts to in state `s`. -/
 def syncOp (B : Backend) (s : St) (full : Bool) (n : Nat) : Op :=
   .sync full n (B.resp (reqTime s full) n).1 (B.resp (reqTime s full) n).2
 
+/-- The same when the cache store fails afterwards (always a full synchronisation). -/
+def syncNSOp (B : Backend) (n : Nat) : Op := .syncNS n (B.resp 0 n).1 (B.resp 0 n).2
+
 /-- The history of model operations the acts produce from state `s`. -/
 def opsOf (B : Backend) : List Act → St → List Op
   | [], _ => []
   | .sync full n :: r, s => syncOp B s full n :: opsOf B r (step s (syncOp B s full n))
+  | .syncNS n :: r, s => syncNSOp B n :: opsOf B r (step s (syncNSOp B n))
   | .fail _ :: r, s => opsOf B r s
   | .op o :: r, s => o :: opsOf B r (step s o)
 
@@ -838,9 +858,11 @@ theorem tracks_mono {R : Latest → Latest → Prop} {B : Backend} {s : St} {S :
     Nat.le_trans h.le hle⟩
 
 theorem step_syncTime_lookup (s : St) (op : Op) (h1 : ∀ full t ps ds, op ≠ .sync full t ps ds)
+    (h3 : ∀ t ps ds, op ≠ .syncNS t ps ds)
     (h2 : ∀ v, op ≠ .restart v) : (step s op).syncTime = s.syncTime ∧ specStep S op = S := by
   cases op with
   | sync full t ps ds => exact absurd rfl (h1 full t ps ds)
+  | syncNS t ps ds => exact absurd rfl (h3 t ps ds)
   | byDev id => exact ⟨rfl, rfl⟩
   | byKey k => exact ⟨rfl, rfl⟩
   | byHuman pid h => exact ⟨rfl, rfl⟩
@@ -872,8 +894,19 @@ theorem tracks_sync {R : Latest → Latest → Prop} {B : Backend} (hB : B.Hones
     have := h.disk f (by simpa [specStep, syncOp] using hf)
     exact ⟨this.1, Nat.le_trans this.2 hn⟩
 
+theorem tracks_syncNS {R : Latest → Latest → Prop} {B : Backend} (hB : B.Honest R) {s : St} {S : Spec}
+    {now : Nat} (h : Tracks R B s S now) (n : Nat) (hn : now ≤ n) :
+    Tracks R B (step s (syncNSOp B n)) (specStep S (syncNSOp B n)) n := by
+  have hd : R (Latest.empty.overlay (B.resp 0 n).1 (B.resp 0 n).2) (B.state n) :=
+    hB.delta 0 n Latest.empty (Nat.zero_le n) hB.init
+  refine ⟨hd, h.cache, ?_, Nat.le_refl n⟩
+  intro f hf
+  have := h.disk f hf
+  exact ⟨this.1, Nat.le_trans this.2 hn⟩
+
 theorem tracks_other {R : Latest → Latest → Prop} {B : Backend} (hB : B.Honest R) {s : St} {S : Spec}
-    {now : Nat} (h : Tracks R B s S now) (o : Op) (hok : ∀ full t ps ds, o ≠ .sync full t ps ds) :
+    {now : Nat} (h : Tracks R B s S now) (o : Op) (hok : ∀ full t ps ds, o ≠ .sync full t ps ds)
+    (hok2 : ∀ t ps ds, o ≠ .syncNS t ps ds) :
     Tracks R B (step s o) (specStep S o) now := by
   by_cases hr : ∃ v, o = .restart v
   · obtain ⟨v, rfl⟩ := hr
@@ -905,7 +938,7 @@ theorem tracks_other {R : Latest → Latest → Prop} {B : Backend} (hB : B.Hone
         · rw [if_pos hu]; exact (h.disk f hd).2
         · rw [if_neg hu]; exact Nat.zero_le _
   · have hnr : ∀ v, o ≠ .restart v := fun v hv => hr ⟨v, hv⟩
-    obtain ⟨e1, e2⟩ := step_syncTime_lookup (S := S) s o hok hnr
+    obtain ⟨e1, e2⟩ := step_syncTime_lookup (S := S) s o hok hok2 hnr
     refine ⟨by rw [e1, e2]; exact h.cur, ?_, by rw [e2]; exact h.disk, by rw [e1]; exact h.le⟩
     rw [e2, step_cache_other s o hok]; exact h.cache
 
@@ -923,6 +956,10 @@ theorem tracks_run {R : Latest → Latest → Prop} (B : Backend) (hB : B.Honest
       obtain ⟨hn, hm'⟩ := hm
       simp only [opsOf, List.foldl]
       exact ih _ _ n (tracks_sync hB h full n hn) hokr hm'
+    | syncNS n =>
+      obtain ⟨hn, hm'⟩ := hm
+      simp only [opsOf, List.foldl]
+      exact ih _ _ n (tracks_syncNS hB h n hn) hokr hm'
     | fail full =>
       simp only [opsOf]
       exact ih s S now h hokr hm
@@ -932,8 +969,13 @@ theorem tracks_run {R : Latest → Latest → Prop} (B : Backend) (hB : B.Honest
         have := hok (.op o) (by simp)
         rw [he] at this
         exact this
+      have hns2 : ∀ t ps ds, o ≠ .syncNS t ps ds := by
+        intro t ps ds he
+        have := hok (.op o) (by simp)
+        rw [he] at this
+        exact this
       simp only [opsOf, List.foldl]
-      exact ih _ _ now (tracks_other hB h o hns) hokr hm
+      exact ih _ _ now (tracks_other hB h o hns hns2) hokr hm
 
 /-! A realistic honest backend: its records are the overlay of its change log (tombstones are
 records), and "since `t`" is answered with the change sets of the times after `t`. -/
